@@ -5,11 +5,19 @@
 (* string types (drv-names edits).  Every event carries the operation, its *)
 (* arguments, the result class and the bytes (`as_bytes()`) afterwards;    *)
 (* the model (Names.tla: Apply) computes what the documented rules demand. *)
+(* `drv-names ctors` adds every public construction path (`via`) with      *)
+(* arguments around the capacity (CAPACITY-1 .. 2*CAPACITY+1), the derived  *)
+(* constructors (from_path_and_file, new_normalized, conversions between   *)
+(* the types) and the accessors of an accepted value (`out`).              *)
 (* Clauses (invariants, latched by the first event that breaks them):      *)
 (*   Validated  a constructor accepts exactly the valid byte strings       *)
-(*   RoundTrip  an accepted name reads back unchanged                      *)
+(*              (judged on the caller's whole string: Names.tla Input)     *)
+(*   RoundTrip  an accepted name reads back unchanged (as_bytes, as_c_str, *)
+(*              Display, serialisation)                                    *)
 (*   EditSafe   an edit whose result would be invalid is refused and       *)
 (*              leaves the content unchanged; a valid result is stored     *)
+(*   Derived    file_name / path / entries / normalize of an accepted      *)
+(*              value are the components the rules talk about              *)
 (* The error KIND (InvalidContent / ExceedsMaximumLength) is not fixed by  *)
 (* the property and is not compared.                                       *)
 (***************************************************************************)
@@ -24,6 +32,10 @@ TraceInit ==
 
 RClass(r) == IF r \in {"ok", "true", "false", "none"} THEN r ELSE "err"
 
+Latch(bad, clause, why) ==
+    /\ nviol' = IF nviol = "none" /\ bad THEN clause ELSE nviol
+    /\ nwhy' = IF nviol = "none" /\ bad THEN why ELSE nwhy
+
 Consume ==
     /\ l <= NRec
     /\ l' = l + 1
@@ -32,15 +44,27 @@ Consume ==
                 /\ e.ty \in Types
                 /\ ty' = e.ty /\ cur' = <<>>
                 /\ UNCHANGED <<nviol, nwhy>>
-         [] e.k = "op" ->
-                LET exp == Apply(ty, cur, [a |-> e.a, idx |-> e.idx, arg |-> e.arg])
+         [] e.k = "op" /\ e.a \in ObserveOps ->
+                LET exp == Observe(ty, cur, e.a)
+                    clause == IF e.a \in {"as_c_str", "serialize", "to_string"} THEN "RoundTrip" ELSE "Derived" IN
+                /\ Latch(e.out # exp \/ e.s # cur, clause, [event |-> e, expected |-> exp])
+                /\ cur' = e.s
+                /\ UNCHANGED ty
+         [] e.k = "op" /\ e.a \notin ObserveOps ->
+                LET op == [a |-> e.a, via |-> e.via, idx |-> e.idx, idx2 |-> e.idx2, arg |-> e.arg, arg2 |-> e.arg2]
+                    exp0 == Apply(ty, cur, op)
+                    \* where the statement is silent both verdicts are fine (but an accepted name must round-trip)
+                    free == e.a = "new" /\ Unspecified(ty, e.via, Input(ty, e.via, e.arg))
+                    exp == IF free
+                           THEN (IF RClass(e.r) = "ok" THEN [r |-> "ok", s |-> Input(ty, e.via, e.arg), alt |-> {}]
+                                                        ELSE [r |-> "err", s |-> cur, alt |-> {}])
+                           ELSE exp0
                     badr == RClass(e.r) # exp.r
-                    bads == e.s # exp.s
-                    clause == IF e.a = "new" THEN (IF badr THEN "Validated" ELSE "RoundTrip") ELSE "EditSafe"
+                    bads == e.s # exp.s /\ e.s \notin exp.alt
+                    clause == IF e.a \in CtorOps THEN (IF badr THEN "Validated" ELSE "RoundTrip") ELSE "EditSafe"
                 IN
-                /\ e.a \in {"new", "push", "insert", "remove", "pop", "truncate", "strip_prefix", "strip_suffix"}
-                /\ nviol' = IF nviol = "none" /\ (badr \/ bads) THEN clause ELSE nviol
-                /\ nwhy' = IF nviol = "none" /\ (badr \/ bads) THEN [event |-> e, expected |-> exp] ELSE nwhy
+                /\ e.a \in CtorOps \cup EditOps
+                /\ Latch(badr \/ bads, clause, [event |-> e, expected |-> exp])
                 /\ cur' = e.s
                 /\ UNCHANGED ty
          [] OTHER -> FALSE
@@ -53,4 +77,5 @@ Accepted == TraceAccepted
 Validated == nviol # "Validated"
 RoundTrip == nviol # "RoundTrip"
 EditSafe  == nviol # "EditSafe"
+Derived   == nviol # "Derived"
 =============================================================================
